@@ -1,16 +1,18 @@
 #!/bin/bash
 # regenerates /verif/seeded/RESULTS.md: which check (rule) catches which seeded change
 cd /verif
+# REPO / BIN may point at a scratch worktree and another build of the checker (known findings are always /verif's)
+REPO=${REPO:-/repo}; BIN=${BIN:-bin/cdlint}; export REPO BIN
 PROPS="C01 C02 C03 C04 C05 C06 C07 C08 C09 C10 C11 C12 C13 C14 C15 C16 C17 C18 C19 C20"
-out=seeded/RESULTS.md
+out=${OUT:-seeded/RESULTS.md}
 echo "| seed | breaks | caught by (property: rules) |" > $out
 echo "|------|--------|------------------------------|" >> $out
 for d in seeded/C*; do
   n=$(basename $d)
-  git -C /repo diff --quiet || { echo "/repo dirty"; exit 2; }
-  git -C /repo apply /verif/$d/patch.diff || continue
-  res=$(printf "%s\n" $PROPS | xargs -P 10 -I{} sh -c 'r=$(bin/cdlint -prop {} -repo /repo -evidence "" 2>&1 | grep -A1 "^VIOLATION" | grep "^  C" | awk "{print \$1}" | sed "s/^{}\.//" | sort -u | tr "\n" "," | sed "s/,$//"); [ -n "$r" ] && echo "{}: $r"' | sort | tr "\n" ";" | sed 's/;$//; s/;/; /g')
-  git -C /repo checkout -- .
+  git -C $REPO diff --quiet || { echo "/repo dirty"; exit 2; }
+  git -C $REPO apply /verif/$d/patch.diff || continue
+  res=$(printf "%s\n" $PROPS | xargs -P 10 -I{} sh -c 'r=$($BIN -prop {} -repo $REPO -known /verif/known_findings.json -evidence "" 2>&1 | grep -A1 "^VIOLATION" | grep "^  C" | awk "{print \$1}" | sed "s/^{}\.//" | sort -u | tr "\n" "," | sed "s/,$//"); [ -n "$r" ] && echo "{}: $r"' | sort | tr "\n" ";" | sed 's/;$//; s/;/; /g')
+  git -C $REPO checkout -- . && git -C $REPO clean -fdq
   echo "| $n | $(jq -r .property $d/meta.json) | ${res:-MISSED} |" >> $out
 done
 cat $out
